@@ -197,6 +197,18 @@ class UnionNode(XmlNode):
                 max_score = score
                 obj = result
 
+        if (
+            obj is None
+            and text is None
+            and len(self.events) == 2
+            and not self.var.nillable
+        ):
+            # An empty element is the empty value of a text candidate
+            if str in self.candidates:
+                obj = ""
+            elif bytes in self.candidates:
+                obj = b""
+
         if obj is not None:
             objects.append((self.var.qname, obj))
 
